@@ -8,3 +8,33 @@ package reader
 
 //@ interface Sniffer.SniffFile(s Sniffer, path string)
 //@   assigns \nothing
+
+//@ func Reader.ParseStreamWithOptions
+//@   props C04
+//@   requires r.Options != nil && r.sniffer != nil && f != nil
+//@   requires forall k formats.Format :: (k in unserializers) ==> unserializers[k] != nil
+//@   ensures [C04:parse:oneOf] (result1 == nil) != (result0 == nil)
+
+// registry invariant: registered drivers are non-nil (precondition of RegisterUnserializer)
+//@ func GetFormatUnserializer
+//@   props C04
+//@   requires forall f formats.Format :: (f in unserializers) ==> unserializers[f] != nil
+//@   ensures [C04:registry:oneOf] (result1 == nil) ==> result0 != nil
+
+//@ func Reader.ParseStream
+//@   props C04
+//@   requires r.Options != nil && r.sniffer != nil && f != nil
+//@   requires forall k formats.Format :: (k in unserializers) ==> unserializers[k] != nil
+//@   ensures [C04:parse:oneOf] (result1 == nil) != (result0 == nil)
+
+//@ func Reader.ParseFile
+//@   props C04
+//@   requires r.Options != nil && r.sniffer != nil
+//@   requires forall k formats.Format :: (k in unserializers) ==> unserializers[k] != nil
+//@   ensures [C04:parse:oneOf] (result1 == nil) != (result0 == nil)
+
+//@ func Reader.ParseFileWithOptions
+//@   props C04
+//@   requires r.Options != nil && r.sniffer != nil
+//@   requires forall k formats.Format :: (k in unserializers) ==> unserializers[k] != nil
+//@   ensures [C04:parse:oneOf] (result1 == nil) != (result0 == nil)
